@@ -32,7 +32,11 @@ ObsKeysOK(c) == \A i \in 1 .. Len(c) : <<c[i].m, c[i].p>> \in AllKeys
 ObsWaiting(w) == {<<w[i][1], w[i][2]>> : i \in 1 .. Len(w)}
 
 TRecv ==
-  LET msg == Ev.msg
+  LET raw == Ev.msg
+      \* fields without meaning for the message class carry the specification's fixed filler
+      msg == [raw EXCEPT !.en = IF raw.action \in ValueActions \/ raw.shape \in BadShapes THEN E0 ELSE @,
+                         !.tx = IF raw.action \in ValueActions \/ raw.shape \in BadShapes THEN X0 ELSE @,
+                         !.w = IF raw.action \notin ValueActions \/ raw.shape \in BadShapes THEN W0 ELSE @]
       k == Resolve(msg.action, msg.ident, desc)
       h == Handled(msg, desc)
       oc == ObsCache(Ev.cache)
